@@ -213,3 +213,189 @@ Proof.
   - subst. eapply (insert_blocks_fresh _ _ _ Sa Kb E); eauto.
   - pose proof (chain_disjoint 0 bs (sb, wsb) (sa, wsa) Hs Ib Ia L) as K. unfold bend in K. cbn in K. lia.
 Qed.
+
+(* ---------- the symbol tables ---------- *)
+Definition shifted (sh : Z) (bl : list (str * symdata)) := map (fun p => (fst p, shift_sym sh (snd p))) bl.
+Lemma lookup_shift sh bl n : lookup n (shifted sh bl) = option_map (shift_sym sh) (lookup n bl).
+Proof. induction bl as [|(k, d) r IH]; cbn; [reflexivity|]. destruct (str_eqb n k); [reflexivity|exact IH]. Qed.
+Lemma keys_shift sh bl : map fst (shifted sh bl) = map fst bl.
+Proof. unfold shifted. rewrite map_map. reflexivity. Qed.
+Lemma fsym_shift sh d : fsym (shift_sym sh d) = fsym d.
+Proof. reflexivity. Qed.
+
+Lemma mrule_lmerge x y : option_map fsym (mrule x y) = lmerge (option_map fsym x) (option_map fsym y).
+Proof.
+  destruct x as [[aa sa [|]]|], y as [[ab sb [|]]|]; reflexivity.
+Qed.
+
+Lemma syminv_mono bs bs' st : (forall x, covered bs x = true -> covered bs' x = true) -> SymInv bs st -> SymInv bs' st.
+Proof.
+  intros Hc [S1 S2 S3 S4 S5]. constructor; auto.
+  - intros a n Hin. destruct (S3 _ _ Hin). auto.
+  - destruct (st_debug st); [|trivial]. eapply lines_ok_mono; [|exact Hc|exact S5]. lia.
+Qed.
+
+(* resolution in the model = definedness of the merged label, for names that are external on one side *)
+Lemma res_equiv (x y : option symdata) :
+  ((exists ad, x = Some ad /\ sd_external ad = true) \/ (exists bd, y = Some bd /\ sd_external bd = true)) ->
+  let rb := match x, y with Some ad, Some bd => xorb (sd_external ad) (sd_external bd) | _, _ => false end in
+  let tg := match x, y with Some ad, Some bd => if sd_external ad then sd_addr bd else sd_addr ad | _, _ => 0 end in
+  is_defined (lmerge (option_map fsym x) (option_map fsym y)) = if rb then Some tg else None.
+Proof.
+  intros H. destruct x as [ad|], y as [bd|]; cbn; unfold fsym.
+  - destruct (sd_external ad) eqn:Xa, (sd_external bd) eqn:Xb; cbn; try reflexivity.
+    destruct H as [(d & E & X)|(d & E & X)]; inversion E; subst; congruence.
+  - destruct (sd_external ad) eqn:Xa; cbn; [reflexivity|].
+    destruct H as [(d & E & X)|(d & E & X)]; [inversion E; subst; congruence|discriminate].
+  - destruct (sd_external bd) eqn:Xb; cbn; [reflexivity|].
+    destruct H as [(d & E & X)|(d & E & X)]; [discriminate|inversion E; subst; congruence].
+  - reflexivity.
+Qed.
+
+Definition debug_fit (sa sb : symtab) : Prop :=
+  match st_debug sa, st_debug sb with
+  | Some da, Some db => count_lines (ds_src da) + count_lines (ds_src db) <= usize_max
+  | _, _ => True
+  end.
+Definition dbg_lines (d : option debug_symbols) : Z := match d with Some d => count_lines (ds_src d) | None => 0 end.
+
+Lemma link_sym_ok bs a_bs b_bs sa sb :
+  blocks_ok 0 bs = true ->
+  (forall x, covered a_bs x = true -> covered bs x = true) ->
+  (forall x, covered b_bs x = true -> covered bs x = true) ->
+  (forall addr, covered a_bs addr = false \/ covered b_bs addr = false) ->
+  SymInv a_bs sa -> SymInv b_bs sb ->
+  (forall n ad bd, lookup n (st_labels sa) = Some ad -> lookup n (st_labels sb) = Some bd ->
+     sd_external ad = false -> sd_external bd = false -> sd_addr ad = sd_addr bd) ->
+  debug_fit sa sb ->
+  let LL := fun n => lmerge (option_map fsym (lookup n (st_labels sa))) (option_map fsym (lookup n (st_labels sb))) in
+  let PU := fun addr => first_of (rel_find addr (st_rel sa)) (rel_find addr (st_rel sb)) in
+  exists bs' st', link_sym bs sa sb = LOk (mkObj bs' (Some st')) /\
+    blocks_ok 0 bs' = true /\ SymInv bs' st' /\
+    (forall n, option_map fsym (lookup n (st_labels st')) = LL n) /\
+    (forall addr, rel_find addr (st_rel st') = res_pend (PU addr) LL) /\
+    (forall addr, img_blocks bs' addr = res_img (img_blocks bs addr) (PU addr) LL) /\
+    dbg_lines (st_debug st') <= dbg_lines (st_debug sa) + dbg_lines (st_debug sb).
+Proof.
+  intros Hs Ca Cb Hd [A1 A2 A3 A4 A5] [B1 B2 B3 B4 B5] Hl Hfit LL PU.
+  destruct sa as [la ra da], sb as [lb rb db]. cbn [st_labels st_rel st_debug] in *.
+  unfold link_sym. cbn [st_labels st_rel st_debug].
+  set (sh := match da, db with Some da0, Some _ => byte_len (ds_src da0) + 1 | _, _ => 0 end).
+  (* 1. debug symbols *)
+  assert (Hdbg : exists dbg,
+     match da, db with
+     | Some da0, Some db0 => match debug_link da0 db0 with Some d => Some (Some d) | None => None end
+     | Some da0, None => Some (Some da0)
+     | None, x => Some x
+     end = Some dbg /\
+     (forall bs', (forall x, covered bs' x = covered bs x) ->
+        match dbg with Some d => lines_ok 0 (count_lines (ds_src d)) bs' (ds_lines d) = true | None => True end) /\
+     dbg_lines dbg <= dbg_lines da + dbg_lines db).
+  { unfold debug_fit in Hfit. cbn [st_debug] in Hfit.
+    destruct da as [[lla ssa]|], db as [[llb ssb]|]; cbn [ds_src ds_lines] in *.
+    - destruct (debug_link_ok lla ssa llb ssb a_bs b_bs bs A5 B5 Ca Cb Hfit) as (E1 & E2).
+      rewrite E1. eexists. split; [reflexivity|]. split.
+      + intros bs' Hc. cbn [ds_src ds_lines]. eapply lines_ok_mono; [|intros x Hx; rewrite Hc; exact Hx|exact E2]. lia.
+      + unfold dbg_lines. cbn [ds_src]. rewrite count_lines_join. lia.
+    - eexists. split; [reflexivity|]. split.
+      + intros bs' Hc. cbn. eapply lines_ok_mono; [|intros x Hx; rewrite Hc; apply Ca; exact Hx|exact A5]. lia.
+      + cbn. lia.
+    - eexists. split; [reflexivity|]. split.
+      + intros bs' Hc. cbn. eapply lines_ok_mono; [|intros x Hx; rewrite Hc; apply Cb; exact Hx|exact B5]. lia.
+      + cbn. pose proof (count_lines_pos ssb). lia.
+    - eexists. split; [reflexivity|]. split; [intros; exact Logic.I|cbn; lia]. }
+  destruct Hdbg as (dbg & Edbg & Hlines & Hnl). rewrite Edbg.
+  (* 2. labels *)
+  fold (shifted sh lb).
+  set (bl' := shifted sh lb).
+  assert (Nb' : NoDup (map fst bl')) by (unfold bl'; rewrite keys_shift; exact B1).
+  set (rel := rel_extend ra rb).
+  assert (Hl' : forall n ad bd, lookup n la = Some ad -> lookup n bl' = Some bd ->
+             sd_external ad = false -> sd_external bd = false -> sd_addr ad = sd_addr bd).
+  { intros n ad bd Ha Hb. unfold bl' in Hb. rewrite lookup_shift in Hb.
+    destruct (lookup n lb) as [bd0|] eqn:E0; [|discriminate]. cbn in Hb. inversion Hb; subst. cbn. eapply Hl; eauto. }
+  destruct (merge_labels_total bl' Nb' la rel [] Hl') as (L & R & Q & EM). rewrite EM.
+  destruct (merge_labels_ok bl' Nb' _ _ _ _ _ _ EM) as (I1 & I2 & (Q' & I3 & I4) & I5 & I6 & I7).
+  cbn [app] in I3. subst Q.
+  (* the relocation map *)
+  assert (Nrel : NoDup (map fst rel)) by (apply rel_extend_keys; exact A2).
+  assert (Frel : forall addr, rel_find addr rel = PU addr).
+  { intro addr. unfold rel, PU. rewrite (rel_extend_find _ _ _ B2). unfold first_of.
+    destruct (rel_find addr rb) as [n|] eqn:Eb, (rel_find addr ra) as [m|] eqn:Ea; try reflexivity.
+    exfalso. apply rel_find_in in Ea, Eb. destruct (A3 _ _ Ea) as (_ & Ka). destruct (B3 _ _ Eb) as (_ & Kb).
+    destruct (Hd addr); congruence. }
+  assert (Cov : forall a n, In (a, n) rel -> covered bs a = true).
+  { intros a n Hin. apply (in_rel_find _ _ _ Nrel) in Hin. rewrite Frel in Hin. unfold PU, first_of in Hin.
+    destruct (rel_find a ra) as [m|] eqn:Ea.
+    - apply rel_find_in in Ea. apply Ca. apply (A3 _ _ Ea).
+    - apply rel_find_in in Hin. apply Cb. apply (B3 _ _ Hin). }
+  assert (Ext : forall a n, In (a, n) rel ->
+     (exists ad, lookup n la = Some ad /\ sd_external ad = true) \/ (exists bd, lookup n bl' = Some bd /\ sd_external bd = true)).
+  { intros a n Hin. apply (in_rel_find _ _ _ Nrel) in Hin. rewrite Frel in Hin. unfold PU, first_of in Hin.
+    destruct (rel_find a ra) as [m|] eqn:Ea.
+    - inversion Hin; subst. apply rel_find_in in Ea. left. apply is_external_lookup. apply (A3 _ _ Ea).
+    - apply rel_find_in in Hin. right. destruct (B3 _ _ Hin) as (X & _). apply is_external_lookup in X.
+      destruct X as (d & Ed & Xd). exists (shift_sym sh d). unfold bl'. rewrite lookup_shift, Ed. cbn. auto. }
+  assert (LLeq : forall n, LL n = lmerge (option_map fsym (lookup n la)) (option_map fsym (lookup n bl'))).
+  { intro n. unfold LL, bl'. rewrite lookup_shift. destruct (lookup n lb); reflexivity. }
+  assert (Req : forall a n, In (a, n) rel ->
+            is_defined (LL n) = if resolvedb la bl' n then Some (target la bl' n) else None).
+  { intros a n Hin. rewrite LLeq. unfold resolvedb, target. apply res_equiv. eapply Ext; eauto. }
+  (* 3. patching *)
+  destruct (apply_relocs_spec 0 bs Q' Hs) as (bs' & P1 & P2 & P3 & P4 & P5).
+  { intros a t Hin. apply I4 in Hin. destruct Hin as (n & Hin & _). eapply Cov; eauto. }
+  rewrite P1. exists bs', (mkSymtab L R dbg). split; [reflexivity|]. split; [exact P2|].
+  cbn [st_labels st_rel st_debug].
+  assert (Fpend : forall addr, rel_find addr R = res_pend (PU addr) LL).
+  { intro addr. rewrite I2, (rel_find_filter _ _ _ Nrel), Frel. unfold res_pend.
+    destruct (PU addr) as [n|] eqn:Ep; [|reflexivity]. cbn [snd].
+    assert (Hin : In (addr, n) rel) by (apply rel_find_in; rewrite Frel; exact Ep).
+    rewrite (Req _ _ Hin). destruct (resolvedb la bl' n); reflexivity. }
+  split; [|split; [|split; [exact Fpend|split]]].
+  - (* invariant *)
+    constructor; cbn [st_labels st_rel st_debug].
+    + apply I7. exact A1.
+    + rewrite I2. apply filter_keys_nodup. exact Nrel.
+    + intros a n Hin. rewrite I2 in Hin. apply filter_In in Hin. destruct Hin as (Hin & Hr). cbn in Hr.
+      apply negb_true_iff in Hr. split; [|rewrite P3; eapply Cov; eauto].
+      apply is_external_lookup. rewrite I1. unfold resolvedb in Hr.
+      destruct (Ext _ _ Hin) as [(ad & Ea & Xa)|(bd & Eb & Xb)].
+      * rewrite Ea in *. destruct (lookup n bl') as [bd|]; cbn.
+        -- rewrite Xa in *. cbn in Hr. destruct (sd_external bd); [|discriminate]. cbn. eauto.
+        -- eauto.
+      * rewrite Eb in *. destruct (lookup n la) as [ad|]; cbn.
+        -- rewrite Xb in *. destruct (sd_external ad) eqn:Xa; [cbn; eauto|discriminate].
+        -- eauto.
+    + intros n d Hin Hx. apply (in_lookup _ _ _ (I7 A1)) in Hin. rewrite I1 in Hin.
+      assert (Da : forall ad, lookup n la = Some ad -> sd_external ad = true -> sd_addr ad = 0).
+      { intros ad E X. eapply A4; [eapply lookup_in; eauto|exact X]. }
+      assert (Db : forall bd, lookup n bl' = Some bd -> sd_external bd = true -> sd_addr bd = 0).
+      { intros bd E X. unfold bl' in E. rewrite lookup_shift in E. destruct (lookup n lb) as [bd0|] eqn:E0; [|discriminate].
+        cbn in E. inversion E; subst. cbn in *. eapply B4; [eapply lookup_in; eauto|exact X]. }
+      destruct (lookup n la) as [ad|], (lookup n bl') as [bd|]; cbn in Hin.
+      * destruct (sd_external ad && negb (sd_external bd)); inversion Hin; subst; eauto.
+      * inversion Hin; subst; eauto.
+      * inversion Hin; subst; eauto.
+      * discriminate.
+    + apply Hlines. exact P3.
+  - intro n. rewrite I1, mrule_lmerge, LLeq. reflexivity.
+  - (* image *)
+    intro addr. unfold res_img.
+    destruct (PU addr) as [n|] eqn:Ep.
+    + assert (Hin : In (addr, n) rel) by (apply rel_find_in; rewrite Frel; exact Ep).
+      pose proof (Cov _ _ Hin) as Hc. unfold covered in Hc. destruct (img_blocks bs addr) as [w|] eqn:Ew; [|discriminate].
+      rewrite (Req _ _ Hin). destruct (resolvedb la bl' n) eqn:Er.
+      * apply P5.
+        -- apply I4. exists n. auto.
+        -- intros t' Ht'. apply I4 in Ht'. destruct Ht' as (n' & Hin' & _ & Et).
+           assert (n' = n).
+           { apply (in_rel_find _ _ _ Nrel) in Hin, Hin'. congruence. }
+           subst n'. exact Et.
+      * rewrite P4; [exact Ew|]. intros t Ht. apply I4 in Ht. destruct Ht as (n' & Hin' & Hr' & _).
+        assert (n' = n) by (apply (in_rel_find _ _ _ Nrel) in Hin, Hin'; congruence). subst n'. congruence.
+    + rewrite P4.
+      * destruct (img_blocks bs addr); reflexivity.
+      * intros t Ht. apply I4 in Ht. destruct Ht as (n' & Hin' & _). apply (in_rel_find _ _ _ Nrel) in Hin'.
+        rewrite Frel in Hin'. congruence.
+  - exact Hnl.
+Qed.
